@@ -6,4 +6,6 @@ mod vec_builder;
 pub use array::{Array, ArrayHandle};
 pub use shared_vector::{IndexedResult, RawSharedVector, RawSharedVectorHandle, RawVecLocation};
 pub use unique_vector::UniqueVector;
+#[cfg(feature = "verif")]
+pub use unique_vector::RawUniqueVectorHandle;
 pub use vec_builder::VecBuilder;
